@@ -22,7 +22,7 @@ func init() {
 // Texts is the catalogue behind the text ids of MCSession.
 var Texts = map[string]string{
 	"i1": `module i1 { namespace "urn:i1"; prefix i1;
-  identity x; identity y { base x; } identity z { base y; }
+  identity x; identity y { base x; } identity z { base y; } identity z4 { base z; } identity z5 { base z4; } identity z6 { base z5; }
   leaf r { type identityref { base x; } }
 }`,
 	"t2": `module t2 { namespace "urn:t2"; prefix t2;
